@@ -1,7 +1,10 @@
 (* C10 — Object and probe constraints always yield physically admissible models.
-   This file contains ONLY the property theorems (closed by `exact`), the full-strength statements
-   that the code as written does not satisfy together with their refutations, the assumption
-   reports, and non-vacuity examples.
+   This file contains ONLY the property theorems (closed by `exact`), the full-strength statement
+   that the code does not satisfy together with its refutation, the assumption reports, and
+   non-vacuity examples.  The model is /repo WITH fixes/C10-pure-phase-fov-mask.diff applied.
+   hard_polar is the complex / pure-phase object BEFORE the slice-tying step (the property claims
+   nothing about amplitudes of tied slices); the tying step itself is tie_if / tie_slices, applied
+   by the code to the real and imaginary channel.
    Objects: list of slices, each the flattened list of pixels; a complex / pure-phase pixel is
    (amplitude, phase) over Q, a potential pixel is a rational; `mask` is the FOV mask (one entry per
    pixel, broadcast over slices).  Probes: lists of vectors over Q(i); a mode (s, u) denotes
@@ -23,26 +26,19 @@ Theorem C10_complex_amp_le_1 : forall cfg mask obj,
 Proof. exact complex_amp_le_1. Qed.
 Print Assumptions C10_complex_amp_le_1.
 
-(* pure-phase objects: amplitude exactly one — when the mask is not applied or is identically one *)
+(* pure-phase objects: amplitude exactly one — every configuration, every FOV mask (applied or
+   not; the mask acts on the phase only) *)
 Theorem C10_pure_phase_amp_eq_1 : forall cfg mask obj,
-  mask_unit cfg mask ->
   Forall (Forall (fun p : polar => fst p == 1)) (hard_polar PurePhase cfg mask obj).
 Proof. exact pure_phase_amp_eq_1. Qed.
 Print Assumptions C10_pure_phase_amp_eq_1.
 
-(* the property as stated (every FOV mask in [0,1]) is FALSE for the code as written: with
-   apply_fov_mask the amplitude is mask^2 *)
-Definition C10_pure_phase_amp_statement : Prop :=
-  forall cfg mask obj, mask_in_01 mask ->
-    Forall (Forall (fun p : polar => fst p == 1)) (hard_polar PurePhase cfg mask obj).
-Theorem C10_pure_phase_amp_refuted : ~ C10_pure_phase_amp_statement.
-Proof. exact pure_phase_amp_refuted. Qed.
-Print Assumptions C10_pure_phase_amp_refuted.
-
-Theorem C10_pure_phase_masked_amp_is_mask_sq : forall mean_ph m p,
-  fst (polar_pixel PurePhase mean_ph (Some m) p) == m * m.
-Proof. exact pure_phase_pixel_masked. Qed.
-Print Assumptions C10_pure_phase_masked_amp_is_mask_sq.
+(* the defect this replaced (snapshot of /repo before fixes/C10-pure-phase-fov-mask.diff): the mask
+   was multiplied into the amplitude twice, so a "pure-phase" pixel had amplitude mask^2 *)
+Theorem C10_unrepaired_pure_phase_amp_is_mask_sq : forall mean_ph m p,
+  fst (polar_pixel_unrepaired PurePhase mean_ph (Some m) p) == m * m.
+Proof. exact pure_phase_pixel_unrepaired. Qed.
+Print Assumptions C10_unrepaired_pure_phase_amp_is_mask_sq.
 
 (* potential objects under positivity: every value non-negative, with any baseline offset,
    any FOV mask in [0,1] and with or without slice tying *)
@@ -65,18 +61,25 @@ Theorem C10_tie_slices_identical : forall xs a b,
 Proof. exact tie_slices_identical. Qed.
 Print Assumptions C10_tie_slices_identical.
 
+(* the tying step as applied to the two real channels (re, im) of a complex / pure-phase object *)
+Theorem C10_slices_identical_channel : forall cfg xs a b,
+  identical_slices cfg = true -> In a (tie_if cfg xs) -> In b (tie_if cfg xs) -> a = b.
+Proof. exact tie_if_identical. Qed.
+Print Assumptions C10_slices_identical_channel.
+
 (* re-applying the constraint to an already constrained object (obj2: same amplitudes as the
-   constrained object, arbitrary phases) does not change the amplitude — unmasked / unit masks,
-   and pure-phase objects under any mask *)
+   constrained object, arbitrary phases) does not change the amplitude — pure-phase objects under
+   any mask; complex objects when the mask is not applied or is binary (entries 0 or 1) *)
 Theorem C10_hard_idempotent_amp : forall ty cfg mask obj obj2,
-  is_wave ty -> mask_in_01 mask -> (ty = PurePhase \/ mask_unit cfg mask) ->
+  is_wave ty -> (ty = PurePhase \/ mask_binary cfg mask) ->
   amps_eq (amps obj2) (amps (hard_polar ty cfg mask obj)) ->
   amps_eq (amps (hard_polar ty cfg mask obj2)) (amps (hard_polar ty cfg mask obj)).
 Proof. exact hard_idempotent_amp. Qed.
 Print Assumptions C10_hard_idempotent_amp.
 
-(* at full strength (any FOV mask in [0,1]) FALSE for complex objects: the mask is multiplied in
-   again on every application (amplitude clamp(a) m^2 -> clamp(a) m^4) *)
+(* at full strength (any FOV mask in [0,1]) FALSE for complex objects: a fractional mask value is
+   multiplied into the amplitude again on every application (clamp(a) m -> clamp(a) m^2);
+   known finding C10/complex-fov-mask-reapplication *)
 Definition C10_hard_idempotent_amp_statement : Prop :=
   forall ty cfg mask obj obj2,
     is_wave ty -> mask_in_01 mask ->
@@ -162,20 +165,23 @@ Definition ex_cfg (tie msk : bool) : ocfg :=
 Lemma ex_mask_ok : mask_in_01 (Some [1 # 2; 1]).
 Proof. cbn. repeat constructor; apply Qle_bool_iff; reflexivity. Qed.
 
-(* the clamp acts (raw amplitude 3 -> 1) and the mask in [0,1] is applied *)
+(* the clamp acts (raw amplitude 3 -> 1) and the mask in [0,1] is applied (once) *)
 Example C10_nonvacuous_complex :
   mask_in_01 (Some [1 # 2; 1]) /\
   amps (hard_polar Complex (ex_cfg false true) (Some [1 # 2; 1]) [[(3, 1); (1 # 3, -2)]])
-  = [[1 # 4; 1 # 3]].
+  = [[1 # 2; 1 # 3]].
 Proof. split; [exact ex_mask_ok | vm_compute; reflexivity]. Qed.
 
-(* a unit mask that IS applied, and an unapplied non-unit mask, satisfy mask_unit *)
+(* a fractional mask that IS applied: amplitude one, phase (phi - mean) * mask *)
 Example C10_nonvacuous_pure_phase :
-  mask_unit (ex_cfg false true) (Some [1; 1]) /\ mask_unit (ex_cfg false false) (Some [1 # 2; 1]) /\
-  amps (hard_polar PurePhase (ex_cfg false true) (Some [1; 1]) [[(3, 1); (1 # 3, -2)]]) = [[1; 1]].
-Proof.
-  split; [|split]; [cbn; repeat constructor; reflexivity | exact I | vm_compute; reflexivity].
-Qed.
+  hard_polar PurePhase (ex_cfg false true) (Some [1 # 2; 1]) [[(3, 1); (1 # 3, -2)]]
+  = [[(1, 3 # 4); (1, -3 # 2)]].
+Proof. vm_compute; reflexivity. Qed.
+
+(* the recorded defect: before the repair the same pixel had amplitude 1/4 *)
+Example C10_unrepaired_pure_phase_refuted :
+  ~ fst (polar_pixel_unrepaired PurePhase 0 (Some (1 # 2)) (3, 1)) == 1.
+Proof. vm_compute. discriminate. Qed.
 
 Example C10_nonvacuous_potential :
   positivity (ex_cfg true true) = true /\
@@ -183,10 +189,21 @@ Example C10_nonvacuous_potential :
   = [[24 # 128; 10 # 8]; [24 # 128; 10 # 8]].
 Proof. split; [reflexivity | vm_compute; reflexivity]. Qed.
 
+(* a binary mask that is applied, a complex object whose clamp acts *)
 Example C10_nonvacuous_idempotent :
-  let o1 := hard_polar Complex (ex_cfg false false) (Some [1 # 2; 1]) [[(3, 1); (1 # 3, -2)]] in
-  amps_eq (amps o1) (amps o1) /\ amps o1 = [[1; 1 # 3]].
-Proof. cbn zeta. split; [vm_compute; repeat constructor | vm_compute; reflexivity]. Qed.
+  let cfg := ex_cfg false true in let mask := Some [0; 1] in
+  let o1 := hard_polar Complex cfg mask [[(3, 1); (1 # 3, -2)]] in
+  mask_binary cfg mask /\ amps o1 = [[0; 1 # 3]] /\
+  amps (hard_polar Complex cfg mask o1) = [[0; 1 # 3]].
+Proof.
+  cbn zeta. split; [|split; vm_compute; reflexivity].
+  cbn. constructor; [left; reflexivity | constructor; [right; reflexivity | constructor]].
+Qed.
+
+Example C10_nonvacuous_tie_channel :
+  identical_slices (ex_cfg true false) = true /\
+  tie_if (ex_cfg true false) [[1; 2]; [3; -4]] = [[4 # 2; -2 # 2]; [4 # 2; -2 # 2]].
+Proof. split; [reflexivity | vm_compute; reflexivity]. Qed.
 
 Example C10_nonvacuous_tomo :
   tomo_hard true (Some (1 # 4)) [-1; 1 # 8; 1] = [0; 0; 3 # 4].
